@@ -7,7 +7,8 @@
    grammars never reach panic, stuck or fuel exhaustion is decided by that correspondence and the
    catch_unwind/watchdog oracle, not by a theorem. *)
 From Coq Require Import List Arith.
-From LV Require Import Cst Tree ABuild Runtime Exec FuelMono.
+From LV Require Import Cst Tree ABuild Runtime Exec Sema Compile FuelMono CompileLoop.
+Import ListNotations.
 
 Theorem C03_result_independent_of_fuel :
   forall cx prog orc f1 f2 r root msg,
@@ -15,4 +16,30 @@ Theorem C03_result_independent_of_fuel :
   parse_entry cx prog orc f2 r root msg = parse_entry cx prog orc f1 r root msg.
 Proof. exact parse_entry_fuel_irrelevant. Qed.
 
+(* The loop the back end emits for a repetition or option (Compile.c_recover; the KB correspondence
+   ties it to src/backend/rust.rs output_recovering_operation) is left - without moving the cursor
+   or touching the tree, with at most one diagnostic - whenever the current token cannot start the
+   body and lies in the follow set or the recovery set of the construct.  With
+   C14_end_of_input_is_recovered_or_followed this is the property's last sentence: every repetition
+   and option is left when the end of input is reached.  For every program context, oracle,
+   environment, state, body and fuel. *)
+Theorem C03_compiled_loop_is_left_at_follow_and_recovery_tokens :
+  forall cx prog orc sm rec_of id op body il ic e st fuel,
+    tok_in (cur st) (pats (s_first sm) (rid_of op)) = false ->
+    tok_in (cur st) (pats (s_follow sm) id) = true \/ tok_in (cur st) (pats (s_recovery sm) id) = true ->
+    exists o e' st',
+      exec cx prog orc (10 + fuel) rec_of (c_recover sm id op body il ic) e st = XOk (o, e', st')
+      /\ pos st' = pos st /\ cstd st' = cstd st /\ cur st' = cur st /\ (o = ONormal \/ o = ORetNone).
+Proof. exact recover_loop_exits. Qed.
+
+Theorem C03_star_plus_option_compile_to_that_loop :
+  forall g sm ci cxr id op,
+    c_regex g sm ci cxr (RStar id op) = [c_recover sm id op (c_regex g sm ci cxr op) true (inch sm id)]
+    /\ c_regex g sm ci cxr (RPlus id op)
+       = c_regex g sm ci cxr op ++ [c_recover sm id op (c_regex g sm ci cxr op) true (inch sm id)]
+    /\ c_regex g sm ci cxr (ROpt id op) = [c_recover sm id op (c_regex g sm ci cxr op) false (inch sm id)].
+Proof. intros. repeat split. Qed.
+
 Print Assumptions C03_result_independent_of_fuel.
+Print Assumptions C03_compiled_loop_is_left_at_follow_and_recovery_tokens.
+Print Assumptions C03_star_plus_option_compile_to_that_loop.
